@@ -50,7 +50,14 @@ def corpus(rng, n):
                 out.append(('fld', (v, g.by_ref(ref, 0, 'wild', True), fn, strict, DEF)))
         elif k == 3:
             name = rng.choice(sorted(x for x in g.lib.SEGMENTS if x not in ('MSH', 'ANYHL7SEGMENT')))
-            out.append(('setf', (v, name, name.lower() + '_1', 'X')))
+            if rng.random() < .35:
+                # fields an open-ended segment accepts beyond its structure (Z segments; after a trailing `varies` field): their
+                # reference is made up on the spot by Segment.find_child_reference (seed C19-h kept it in one shared dict)
+                oe = [x for x in ('QPD', 'RDT') if x in g.lib.SEGMENTS]
+                name = rng.choice(['ZIN', 'ZPD', 'ZA1'] + oe)
+                out.append(('setf', (v, name, '%s_%d' % (name.lower(), rng.randrange(1, 30)), rng.choice(['X', 'a^b', '7']))))
+            else:
+                out.append(('setf', (v, name, name.lower() + '_1', 'X')))
         elif k == 4:
             out.append(('build', (v, dict(zip(['FIELD', 'COMPONENT', 'SUBCOMPONENT', 'REPETITION', 'ESCAPE'], rng.sample('!@%$/*;:', 5))))))
         elif k == 5:
@@ -132,6 +139,13 @@ def module_globals_state():
                     if k2.startswith('__') or callable(v2) or isinstance(v2, (property, staticmethod, classmethod, types.FunctionType, types.MemberDescriptorType,
                                                                                types.GetSetDescriptorType)):
                         continue
+                    if isinstance(v2, (dict, list, set)) and len(v2) <= 200:
+                        # a container kept on a class: its content counts, not only its identity (a scratch dict refilled in place — seed C19-h)
+                        def prim2(x):
+                            return repr(x)[:120] if isinstance(x, (str, int, float, bool, type(None), bytes)) else id(x)
+                        items2 = [(prim2(a), prim2(b)) for a, b in v2.items()] if isinstance(v2, dict) else [prim2(x) for x in v2]
+                        st['%s.%s.%s' % (mn, k, k2)] = (id(v2), hashlib.sha1(repr(sorted(map(repr, items2))).encode()).hexdigest())
+                        continue
                     st['%s.%s.%s' % (mn, k, k2)] = repr(v2)[:200] if isinstance(v2, (str, int, float, bool, type(None), bytes)) else (id(v2), type(v2).__name__)
                 continue
             if k.startswith('__') or isinstance(v, (types.ModuleType, type, types.FunctionType, types.BuiltinFunctionType)) or callable(v):
@@ -157,6 +171,14 @@ def run(tier, seed):
     rng = chk.rng
     chk.proof(MODULES, THEOREMS)
     calls = corpus(rng, 500 if tier == 'quick' else 3000)
+    # the call-by-call monitor below looks at the first 80 calls: one call of every kind and shape must be among them
+    front, seen_kinds = [], set()
+    for c in calls:
+        kd = (c[0], c[1][1][:1] == 'Z' or c[1][1] in ('QPD', 'RDT')) if c[0] == 'setf' else (c[0],)
+        if kd not in seen_kinds:
+            seen_kinds.add(kd)
+            front.append(c)
+    calls = front + [c for c in calls if not any(c is f for f in front)]
     # ---- (1) write monitor: the hypothesis "the call writes no shared state", checked on the implementation
     libs = {v: hl7apy.load_library(v) for v in VERSIONS}
     orig = {v: libs[v].BASE_DATATYPES for v in VERSIONS}
